@@ -22,10 +22,8 @@ The first four are near-copies; every difference that matters here is a branch o
 * an already stored member is *skipped* (plain, tiered, tiered-flex, and both flex instantiates) /
   *rejected* (`whitelist-flex::execute_add_members`, `DuplicateMember`);
 * the instantiate capacity check compares the limit with the deduplicated length (plain, tiered) / the raw length (flex kinds);
-* `whale_cap` (flex kinds): `Some c` must exceed `member_limit`; every `mint_count` of an instantiate / add-stage
-  list must be `≤ c` (not checked by `add_members`);
-* tiered kinds: members live per stage (`WHITELIST_STAGES[(stage, addr)]`, `MEMBER_COUNT[stage]`), `HasMember` reads
-  the *active* stage only, `remove_members` is gated by the start of *that* stage, `add_stage` / `remove_stage`;
+* `whale_cap` (flex kinds): every `mint_count` of an instantiate / add-stage list must be `≤ c` (not checked by `add_members`);
+* tiered kinds: members live per stage (`WHITELIST_STAGES[(stage, addr)]`, `MEMBER_COUNT[stage]`), `add_stage` / `remove_stage`;
 * `MAX_MEMBERS` 5000 (plain, flex) / 30000 (tiered kinds) — read from `Generated/Constants.lean`;
 * `whitelist-immutable`: `nonpayable`, sort + dedup, count must be ≥ 1, no address validation, no execute messages.
 
@@ -34,21 +32,29 @@ ascending by address** (`saveM` inserts in place / overwrites, `eraseM` deletes)
 `num_members`, `member_limit`, `MEMBER_COUNT[k]` are the code's own counters, updated exactly where the code updates
 them; that they equal the sizes of the stored maps is a *theorem* (Props/C11.lean), not a definition.
 
-Minimal environment: the admin list (`can_execute`), the flat start/end time and the stage windows enter only as
-gates (`remove_members` before start, `validate_stages`, active stage). Messages that only touch those
-(`UpdateStartTime`, `UpdateEndTime`, `UpdateAdmins`, `Freeze`, `UpdateStageConfig`, `UpdatePerAddressLimit`; owned by
-C12/C13/C05) are over-approximated by `Op.env`, which may set admins and times to anything — so every theorem over
-op lists holds for *every* gating history. `per_address_limit`, mint price/denoms and stage names are not modelled
-(the harness keeps them valid).
+## What is NOT modelled: everything other properties own enters as an environment parameter
+
+Authorisation (`can_execute`, C05), the schedule (`start_time`/`end_time`, stage windows, `validate_stages`, the
+"before it starts" gates of `remove_members` / `remove_stage`, the active stage read by `HasMember`; C12/C13),
+`per_address_limit`, mint prices, stage names and the sanity check `whale_cap > member_limit` are **not part of this model**.
+Every message carries one Boolean `allowed` = "all the checks owned by other properties passed", and the two queries that
+read *the active stage* take that stage as an argument. All theorems quantify over these parameters, so they hold
+for every authorisation and schedule behaviour — present or future. (The driver predicts `allowed` with a small
+schedule/admin table of its own; when only that prediction differs from the implementation it reports DRIFT, not a failure.)
+
+Two *variant* flags cover design points that C11 does not fix and that a maintainer may legitimately change:
+`hasFirst` (test "already stored" before "list is full" in the add loops — the current code tests capacity first, so
+re-adding an existing member to a full list fails) and `distinctCap` (flex instantiate compares the number of
+DISTINCT members with the limit — the current code compares the raw list length). The theorems hold for both values.
 
 Addresses are interned naturals; `validAddr` is the model of `Api::addr_validate` (the harness renders ids
-`≥ 90000` as upper-case strings, which `MockApi` rejects; valid ids render to fixed-width strings whose byte order
+`≥ 90000` as strings which `MockApi` rejects; valid ids render to fixed-width strings whose byte order
 is the numeric order, so `sort_unstable` on the strings is the numeric sort used here).
 
-Bank: `bal` is the contract's own native balance; funds attached to a successful call are credited first, then the
-emitted messages (`LP.Sg1.checkedFairBurn`) are applied. `feesPaid` / `stray` are ghost sums of what callers
-attached to fee-bearing (`instantiate`, `IncreaseMemberLimit`) / other messages (none of the contracts calls
-`nonpayable`, so such funds simply stay).
+Bank: `bank.bal` is the contract's own native balance, `otherBal` its balance in every other denom; funds attached to a
+successful call are credited first, then the emitted messages (`LP.Sg1.checkedFairBurn`) are applied. `feesPaid` /
+`stray`, `strayOther` are ghost sums of what callers attached to fee-bearing (`instantiate`, `IncreaseMemberLimit`) /
+other messages (none of the contracts calls `nonpayable`, so such funds simply stay).
 -/
 namespace LP.WlMembers
 open LP
@@ -86,12 +92,21 @@ def Kind.price : Kind → Nat
   | .tieredFlex => Gen.sg_tiered_whitelist_flex_PRICE_PER_1000_MEMBERS
   | .immutable => 0
 
-/-- `sg_utils::GENESIS_MINT_START_TIME` (ns) -/
-def GENESIS : Nat := Gen.sg_utils_GENESIS_MINT_START_TIME
+/-- `PAGINATION_DEFAULT_LIMIT` of the crate (the immutable whitelist has no `Members` query; value unused) -/
+def Kind.pageDefault : Kind → Nat
+  | .plain => Gen.sg_whitelist_PAGINATION_DEFAULT_LIMIT
+  | .flex => Gen.sg_whitelist_flex_PAGINATION_DEFAULT_LIMIT
+  | .tiered => Gen.sg_tiered_whitelist_PAGINATION_DEFAULT_LIMIT
+  | .tieredFlex => Gen.sg_tiered_whitelist_flex_PAGINATION_DEFAULT_LIMIT
+  | .immutable => 1
 
-/-- `PAGINATION_DEFAULT_LIMIT`, `PAGINATION_MAX_LIMIT` (identical in the four crates that page) -/
-def PAGE_DEFAULT : Nat := Gen.sg_whitelist_PAGINATION_DEFAULT_LIMIT
-def PAGE_MAX : Nat := Gen.sg_whitelist_PAGINATION_MAX_LIMIT
+/-- `PAGINATION_MAX_LIMIT` of the crate -/
+def Kind.pageMax : Kind → Nat
+  | .plain => Gen.sg_whitelist_PAGINATION_MAX_LIMIT
+  | .flex => Gen.sg_whitelist_flex_PAGINATION_MAX_LIMIT
+  | .tiered => Gen.sg_tiered_whitelist_PAGINATION_MAX_LIMIT
+  | .tieredFlex => Gen.sg_tiered_whitelist_flex_PAGINATION_MAX_LIMIT
+  | .immutable => 1
 
 /-- model of `deps.api.addr_validate` (harness convention: ids ≥ 90000 are rendered as invalid strings) -/
 def validAddr (a : Nat) : Bool := a < 90000
@@ -146,14 +161,17 @@ flex kinds keep the message order and the mint counts -/
 def prep (k : Kind) (ms : List Member) : List Member :=
   if k.isFlex then ms else (sortDedup (keys ms)).map (fun a => (a, 0))
 
-/-- the four loop shapes of `instantiate` (flex kinds), `execute_add_members`, `execute_add_stage` -/
+/-- the loop shapes of `instantiate` (flex kinds), `execute_add_members`, `execute_add_stage` -/
 structure LoopCfg where
-  /-- `if config.num_members >= config.member_limit { return Err(MembersExceeded) }` at the top of each iteration -/
+  /-- `if config.num_members >= config.member_limit { return Err(MembersExceeded) }` in each iteration -/
   checkLimit : Bool
   /-- an already stored address is an error (`DuplicateMember`) instead of `continue` -/
   rejectDup : Bool
   /-- `Some c`: `mint_count > c` is an error (`ExceededWhaleCap`) -/
   whale : Option Nat
+  /-- variant: the capacity test sits AFTER the "already stored" test (the current code has it at the top of the
+  iteration, before `addr_validate`) -/
+  hasFirst : Bool
 deriving Repr
 
 /-- `if let Some(whale_cap) = whale_cap { if mint_count > whale_cap { return Err(ExceededWhaleCap) } }` -/
@@ -165,15 +183,16 @@ def whaleExceeded (w : Option Nat) (mintCount : Nat) : Bool :=
 /-- Loop state: (`config.num_members`, the member map, number of `save`s done = `members_added`). -/
 abbrev LoopSt := Nat × List Member × Nat
 
-/-- One handler loop over a member list, exactly in the order of the Rust checks. -/
+/-- One handler loop over a member list, in the order of the Rust checks (`hasFirst = false`). -/
 def addLoop (cfg : LoopCfg) (limit : Nat) : List Member → LoopSt → Except Err LoopSt
   | [], acc => .ok acc
   | m :: ms, (num, st, added) =>
-    if cfg.checkLimit && decide (num ≥ limit) then .error .limit
+    if !cfg.hasFirst && cfg.checkLimit && decide (num ≥ limit) then .error .limit
     else if !validAddr m.1 then .error .invalid
     else if whaleExceeded cfg.whale m.2 then .error .limit
     else if hasM m.1 st then
       (if cfg.rejectDup then .error .invalid else addLoop cfg limit ms (num, st, added))
+    else if cfg.hasFirst && cfg.checkLimit && decide (num ≥ limit) then .error .limit
     else addLoop cfg limit ms (num + 1, saveM m st, added + 1)
 
 /-- `for member in members { addr_validate; WHITELIST.save(addr, true) }` (plain / tiered instantiate: no `has` check) -/
@@ -192,10 +211,9 @@ def removeLoop : List Nat → LoopSt → Except Err LoopSt
 
 /-! ## State -/
 
-/-- one entry of `Config.stages` together with its slice of `WHITELIST_STAGES` and its `MEMBER_COUNT` entry -/
+/-- one entry of `Config.stages`, reduced to its slice of `WHITELIST_STAGES` and its `MEMBER_COUNT` entry
+(the window, name, price … belong to C13) -/
 structure Stage where
-  start : Nat
-  stop : Nat
   members : List Member
   /-- `MEMBER_COUNT[k]` -/
   count : Nat
@@ -211,31 +229,37 @@ structure Bank where
   pool : Nat
 deriving Repr, DecidableEq
 
+/-- funds attached to a message that charges no fee: native coins and coins of any other denom -/
+structure Tip where
+  native : Nat
+  other : Nat
+deriving Repr, DecidableEq
+
+def Tip.zero : Tip := ⟨0, 0⟩
+
 structure WL where
   kind : Kind
   /-- `env.contract.address` -/
   self : Nat
-  admins : List Nat
   /-- `Config.num_members` (immutable: `TOTAL_ADDRESS_COUNT`) -/
   numMembers : Nat
   /-- `Config.member_limit` -/
   memberLimit : Nat
   whaleCap : Option Nat
-  /-- flat kinds: `Config.start_time`, `Config.end_time` -/
-  start : Nat
-  stop : Nat
   /-- flat kinds + immutable: `WHITELIST` -/
   members : List Member
-  /-- tiered kinds: `Config.stages` with their member maps and counters -/
+  /-- tiered kinds: one entry per element of `Config.stages` -/
   stages : List Stage
   bank : Bank
+  /-- the contract's balance in denoms other than the native one -/
+  otherBal : Nat
   /-- ghost: native funds attached to the successful fee-bearing calls (`instantiate`, `IncreaseMemberLimit`) -/
   feesPaid : Nat
   /-- ghost: native funds attached to successful calls of every other message -/
   stray : Nat
+  /-- ghost: non-native funds attached to successful calls of every other message -/
+  strayOther : Nat
 deriving Repr
-
-def isAdmin (s : WL) (a : Nat) : Bool := s.admins.contains a
 
 /-- sum of the stored per-stage map sizes -/
 def stageTotal (ss : List Stage) : Nat := (ss.map (fun g => g.members.length)).sum
@@ -264,89 +288,58 @@ def applyMsgs : Bank → List Msg → Except Err Bank
 def settle (b : Bank) (payment : Nat) (msgs : List Msg) : Except Err Bank :=
   applyMsgs { b with bal := b.bal + payment } msgs
 
-/-! ## Stage windows (minimal; C13 owns the schedule theorems) -/
-
-/-- the two nested loops of `validate_stages`: `start < end`, later stages start at or after this end -/
-def stagesChain : List (Nat × Nat) → Bool
-  | [] => true
-  | s :: rest => decide (s.1 < s.2) && rest.all (fun o => decide (s.2 ≤ o.1)) && stagesChain rest
-
-/-- `helpers::validate_stages` (per-address limits and mint denoms are kept valid by the harness) -/
-def validateStages (now : Nat) (ts : List (Nat × Nat)) : Bool :=
-  match ts with
-  | [] => false
-  | s :: _ => decide (ts.length < 4) && decide (s.1 > now) && stagesChain ts
-
-/-- `fetch_active_stage_index`: first stage whose closed window contains `now` -/
-def activeIdx (now : Nat) (ss : List Stage) : Option Nat :=
-  let i := ss.findIdx (fun g => decide (g.start ≤ now) && decide (now ≤ g.stop))
-  if i < ss.length then some i else none
+/-- A funds list reaches the contract only if it is empty or carries at least one non-zero coin: the chain rejects
+zero coins (`Coins::IsValid`), cw-multi-test's bank fails with "Cannot transfer empty coins amount". -/
+def deliverable (funds : List Coin) : Bool := funds.isEmpty || funds.any (fun c => c.amount != 0)
 
 /-! ## Instantiate -/
 
 structure InstMsg where
   /-- `env.contract.address` of the new instance -/
   self : Nat
-  now : Nat
   funds : List Coin
   memberLimit : Nat
   whaleCap : Option Nat
-  admins : List Nat
-  /-- flat kinds -/
-  start : Nat
-  stop : Nat
+  /-- every check of `instantiate` owned by another property passed: the admin addresses validate, the schedule is
+  valid (flat kinds: `start ≤ end`, `now < start`, `start ≥ GENESIS`; tiered kinds: `validate_stages`),
+  `per_address_limit` in range, `whale_cap > member_limit` -/
+  allowed : Bool
   /-- flat kinds and immutable: `msg.members` / `msg.addresses` -/
   members : List Member
-  /-- tiered kinds: `msg.stages` (windows only) -/
-  stageTimes : List (Nat × Nat)
+  /-- tiered kinds: `msg.stages.len()` -/
+  nStages : Nat
   /-- tiered kinds: `msg.members : Vec<Vec<_>>` -/
   stageMembers : List (List Member)
+  /-- variant: the capacity check counts DISTINCT members (the current flex code compares the raw list length) -/
+  distinctCap : Bool
 deriving Repr
 
 def emptyBank : Bank := ⟨0, 0, 0⟩
 
-/-- `whale_cap > member_limit` (flex kinds only; other kinds have no such field) -/
-def whaleOk (k : Kind) (w : Option Nat) (limit : Nat) : Bool :=
-  match k.isFlex, w with
-  | true, some c => decide (c > limit)
-  | _, _ => true
-
 def effWhale (k : Kind) (w : Option Nat) : Option Nat := if k.isFlex then w else none
 
-/-- member loop of a flat instantiate: (num_members, WHITELIST) -/
-def instFlatMembers (k : Kind) (w : Option Nat) (limit : Nat) (ms : List Member) : Except Err (Nat × List Member) :=
-  let l := prep k ms
-  -- `config.member_limit < config.num_members` with `num_members = members.len()` (after dedup only for plain)
-  if limit < l.length then .error .limit
-  else if k.isFlex then
-    match addLoop ⟨false, false, w⟩ limit l (0, [], 0) with
+/-- the member loop proper of an instantiate, for one list: flex kinds skip duplicates (`has` check, whale cap),
+plain kinds save the deduplicated list -/
+def instList (k : Kind) (w : Option Nat) (limit : Nat) (l : List Member) : Except Err (List Member × Nat) :=
+  if k.isFlex then
+    match addLoop ⟨false, false, w, false⟩ limit l (0, [], 0) with
     | .error e => .error e
-    | .ok (num, st, _) => .ok (num, st)
+    | .ok (_, st, added) => .ok (st, added)
   else
     match saveAll l [] with
     | .error e => .error e
-    | .ok st => .ok (l.length, st)
+    | .ok st => .ok (st, l.length)
 
-/-- per-stage member loop of a tiered instantiate, stage by stage: returns the stages and the running `num_members`.
-`ts` and `mss` have equal length (checked by the caller). -/
-def instStages (k : Kind) (w : Option Nat) (limit : Nat) : List (Nat × Nat) → List (List Member) → Nat → Except Err (List Stage × Nat)
-  | t :: ts, ms :: mss, num =>
-    let l := prep k ms
-    if k.isFlex then
-      match addLoop ⟨false, false, w⟩ limit l (0, [], 0) with
+/-- per-stage member loops of a tiered instantiate: returns the stages and the running `num_members` -/
+def instStages (k : Kind) (w : Option Nat) (limit : Nat) : List (List Member) → Nat → Except Err (List Stage × Nat)
+  | [], num => .ok ([], num)
+  | ms :: mss, num =>
+    match instList k w limit (prep k ms) with
+    | .error e => .error e
+    | .ok (st, added) =>
+      match instStages k w limit mss (num + added) with
       | .error e => .error e
-      | .ok (_, st, added) =>
-        match instStages k w limit ts mss (num + added) with
-        | .error e => .error e
-        | .ok (gs, n) => .ok (⟨t.1, t.2, st, added⟩ :: gs, n)
-    else
-      match saveAll l [] with
-      | .error e => .error e
-      | .ok st =>
-        match instStages k w limit ts mss (num + l.length) with
-        | .error e => .error e
-        | .ok (gs, n) => .ok (⟨t.1, t.2, st, l.length⟩ :: gs, n)
-  | _, _, num => .ok ([], num)
+      | .ok (gs, n) => .ok (⟨st, added⟩ :: gs, n)
 
 /-- `instantiate` of the five crates. -/
 def instantiate (k : Kind) (m : InstMsg) : Except Err WL :=
@@ -357,22 +350,19 @@ def instantiate (k : Kind) (m : InstMsg) : Except Err WL :=
     else
       let l := (sortDedup (keys m.members)).map (fun a => ((a, 0) : Member))
       if l.length < 1 then .error .invalid
-      else .ok { kind := k, self := m.self, admins := [], numMembers := l.length, memberLimit := 0, whaleCap := none,
-                 start := 0, stop := 0, members := l.foldl (fun st x => saveM x st) [], stages := [],
-                 bank := emptyBank, feesPaid := 0, stray := 0 }
+      else .ok { kind := k, self := m.self, numMembers := l.length, memberLimit := 0, whaleCap := none,
+                 members := l.foldl (fun st x => saveM x st) [], stages := [],
+                 bank := emptyBank, otherBal := 0, feesPaid := 0, stray := 0, strayOther := 0 }
   | _ =>
     if m.memberLimit = 0 ∨ m.memberLimit > k.maxMembers then .error .invalid
-    else if k.isTiered && !(validateStages m.now m.stageTimes) then .error .invalid
-    else if k.isTiered && decide (m.stageMembers.length ≠ m.stageTimes.length) then .error .invalid
+    else if !m.allowed then .error .invalid
+    else if k.isTiered && decide (m.stageMembers.length ≠ m.nStages) then .error .invalid
     else
       let fee := creationFee k m.memberLimit
       match mustPay m.funds NATIVE with
       | .error e => .error e
       | .ok payment =>
         if payment ≠ fee then .error .payment
-        else if !whaleOk k m.whaleCap m.memberLimit then .error .invalid
-        else if !m.admins.all validAddr then .error .invalid
-        else if !k.isTiered && (decide (m.start > m.stop) || decide (m.now ≥ m.start) || decide (m.start < GENESIS)) then .error .invalid
         else
           match Sg1.checkedFairBurn m.funds m.self fee none with
           | .error e => .error e
@@ -381,62 +371,70 @@ def instantiate (k : Kind) (m : InstMsg) : Except Err WL :=
             | .error e => .error e
             | .ok bank =>
               let w := effWhale k m.whaleCap
-              if k.isTiered then
-                -- `config.member_limit < Σ len` (raw lengths for tiered-flex, deduplicated for tiered)
-                if m.memberLimit < ((m.stageMembers.map (fun ms => (prep k ms).length)).sum) then .error .limit
-                else match instStages k w m.memberLimit m.stageTimes m.stageMembers 0 with
-                  | .error e => .error e
-                  | .ok (gs, num) =>
-                    .ok { kind := k, self := m.self, admins := m.admins, numMembers := num, memberLimit := m.memberLimit,
-                          whaleCap := w, start := 0, stop := 0, members := [], stages := gs,
-                          bank := bank, feesPaid := payment, stray := 0 }
-              else
-                match instFlatMembers k w m.memberLimit m.members with
+              -- `config.member_limit < config.num_members` with `num_members` = Σ list lengths (after dedup only for the
+              -- plain kinds); skipped in the `distinctCap` variant, where the distinct count is compared after the loops
+              let rawLen := if k.isTiered then (m.stageMembers.map (fun ms => (prep k ms).length)).sum else (prep k m.members).length
+              if !m.distinctCap && decide (m.memberLimit < rawLen) then .error .limit
+              else if k.isTiered then
+                match instStages k w m.memberLimit m.stageMembers 0 with
                 | .error e => .error e
-                | .ok (num, st) =>
-                  .ok { kind := k, self := m.self, admins := m.admins, numMembers := num, memberLimit := m.memberLimit,
-                        whaleCap := w, start := m.start, stop := m.stop, members := st, stages := [],
-                        bank := bank, feesPaid := payment, stray := 0 }
+                | .ok (gs, num) =>
+                  -- never true after the raw-length check above; it is what decides in the `distinctCap` variant
+                  if m.memberLimit < num then .error .limit
+                  else
+                    .ok { kind := k, self := m.self, numMembers := num, memberLimit := m.memberLimit,
+                          whaleCap := w, members := [], stages := gs,
+                          bank := bank, otherBal := 0, feesPaid := payment, stray := 0, strayOther := 0 }
+              else
+                match instList k w m.memberLimit (prep k m.members) with
+                | .error e => .error e
+                | .ok (st, num) =>
+                  if m.memberLimit < num then .error .limit
+                  else
+                    .ok { kind := k, self := m.self, numMembers := num, memberLimit := m.memberLimit,
+                          whaleCap := w, members := st, stages := [],
+                          bank := bank, otherBal := 0, feesPaid := payment, stray := 0, strayOther := 0 }
 
 /-! ## Execute -/
 
+/-- In every message `allowed` = "all checks owned by other properties passed": the sender is an admin (C05) and the
+schedule gate is open (`remove_members`, `remove_stage`: the (stage's) start lies in the future; `add_stage`: fewer
+than three stages and `validate_stages` accepts the extended list — C12/C13). -/
 inductive Op where
   /-- `AddMembers{to_add, stage_id}` (`stage` is ignored by the flat kinds, whose message has no such field) -/
-  | addMembers (sender now tip stage : Nat) (ms : List Member)
+  | addMembers (allowed hasFirst : Bool) (tip : Tip) (stage : Nat) (ms : List Member)
   /-- `RemoveMembers{to_remove, stage_id}` -/
-  | removeMembers (sender now tip stage : Nat) (as : List Nat)
+  | removeMembers (allowed : Bool) (tip : Tip) (stage : Nat) (as : List Nat)
   /-- `AddStage{stage, members}` (tiered kinds) -/
-  | addStage (sender now tip start stop : Nat) (ms : List Member)
+  | addStage (allowed hasFirst : Bool) (tip : Tip) (ms : List Member)
   /-- `RemoveStage{stage_id}` (tiered kinds) -/
-  | removeStage (sender now tip stage : Nat)
-  /-- `IncreaseMemberLimit(limit)` -/
-  | increaseLimit (sender now : Nat) (funds : List Coin) (limit : Nat)
-  /-- any message that only touches admins / times (`UpdateStartTime`, `UpdateEndTime`, `UpdateAdmins`, `Freeze`,
-  `UpdateStageConfig`, `UpdatePerAddressLimit`): the environment may set them to anything -/
-  | env (admins : List Nat) (start stop : Nat) (times : List (Nat × Nat))
+  | removeStage (allowed : Bool) (tip : Tip) (stage : Nat)
+  /-- `IncreaseMemberLimit(limit)` (the current code lets anybody call it: the driver passes `allowed = true`) -/
+  | increaseLimit (allowed : Bool) (funds : List Coin) (limit : Nat)
+  /-- any other message — `UpdateStartTime`, `UpdateEndTime`, `UpdatePerAddressLimit`, `UpdateAdmins`, `Freeze`,
+  `UpdateStageConfig`, or one this model has never heard of: it touches nothing this property is about; only the
+  funds attached to it matter (`allowed` = it succeeded) -/
+  | other (allowed : Bool) (tip : Tip)
 deriving Repr
 
-/-- native funds attached to a message that charges no fee -/
-def Op.tip : Op → Nat
+/-- funds attached to a message that charges no fee -/
+def Op.tip : Op → Tip
   | .addMembers _ _ tip _ _ => tip
-  | .removeMembers _ _ tip _ _ => tip
-  | .addStage _ _ tip _ _ _ => tip
-  | .removeStage _ _ tip _ => tip
-  | .increaseLimit _ _ _ _ => 0
-  | .env _ _ _ _ => 0
+  | .removeMembers _ tip _ _ => tip
+  | .addStage _ _ tip _ => tip
+  | .removeStage _ tip _ => tip
+  | .increaseLimit _ _ _ => Tip.zero
+  | .other _ tip => tip
 
 /-- funds attached to a message that never looks at them stay in the contract -/
-def tipped (s : WL) (tip : Nat) : WL :=
-  { s with bank := { s.bank with bal := s.bank.bal + tip }, stray := s.stray + tip }
+def tipped (s : WL) (tip : Tip) : WL :=
+  { s with bank := { s.bank with bal := s.bank.bal + tip.native }, otherBal := s.otherBal + tip.other,
+           stray := s.stray + tip.native, strayOther := s.strayOther + tip.other }
 
-def setTimes : List Stage → List (Nat × Nat) → List Stage
-  | g :: gs, t :: ts => { g with start := t.1, stop := t.2 } :: setTimes gs ts
-  | gs, _ => gs
-
-def execAddMembers (s : WL) (sender tip stage : Nat) (ms : List Member) : Except Err WL :=
-  if !isAdmin s sender then .error .unauthorized
+def execAddMembers (s : WL) (allowed hasFirst : Bool) (tip : Tip) (stage : Nat) (ms : List Member) : Except Err WL :=
+  if !allowed then .error .unauthorized
   else
-    let cfg : LoopCfg := ⟨true, s.kind == .flex, none⟩
+    let cfg : LoopCfg := ⟨true, s.kind == .flex, none, hasFirst⟩
     if s.kind.isTiered then
       match s.stages[stage]? with
       | none => .error .notFound
@@ -451,52 +449,47 @@ def execAddMembers (s : WL) (sender tip stage : Nat) (ms : List Member) : Except
       | .error e => .error e
       | .ok (num, st, _) => .ok (tipped { s with numMembers := num, members := st } tip)
 
-def execRemoveMembers (s : WL) (sender now tip stage : Nat) (as : List Nat) : Except Err WL :=
-  if !isAdmin s sender then .error .unauthorized
+def execRemoveMembers (s : WL) (allowed : Bool) (tip : Tip) (stage : Nat) (as : List Nat) : Except Err WL :=
+  if !allowed then .error .unauthorized
   else if s.kind.isTiered then
     match s.stages[stage]? with
     | none => .error .notFound
     | some g =>
-      if !(decide (now < g.start)) then .error .tooLate
-      else match removeLoop as (s.numMembers, g.members, 0) with
-        | .error e => .error e
-        | .ok (num, st, removed) =>
-          .ok (tipped { s with numMembers := num,
-                               stages := s.stages.set stage { g with members := st, count := g.count - removed } } tip)
-  else
-    if decide (now ≥ s.start) then .error .tooLate
-    else match removeLoop as (s.numMembers, s.members, 0) with
+      match removeLoop as (s.numMembers, g.members, 0) with
       | .error e => .error e
-      | .ok (num, st, _) => .ok (tipped { s with numMembers := num, members := st } tip)
+      | .ok (num, st, removed) =>
+        .ok (tipped { s with numMembers := num,
+                             stages := s.stages.set stage { g with members := st, count := g.count - removed } } tip)
+  else
+    match removeLoop as (s.numMembers, s.members, 0) with
+    | .error e => .error e
+    | .ok (num, st, _) => .ok (tipped { s with numMembers := num, members := st } tip)
 
-def execAddStage (s : WL) (sender now tip start stop : Nat) (ms : List Member) : Except Err WL :=
-  if !isAdmin s sender then .error .unauthorized
-  else if !(decide (s.stages.length < 3)) then .error .limit
-  else if !validateStages now (s.stages.map (fun g => (g.start, g.stop)) ++ [(start, stop)]) then .error .invalid
+def execAddStage (s : WL) (allowed hasFirst : Bool) (tip : Tip) (ms : List Member) : Except Err WL :=
+  if !allowed then .error .unauthorized
   else
     let l := prep s.kind ms
-    match addLoop ⟨true, false, s.whaleCap⟩ s.memberLimit l (s.numMembers, [], 0) with
+    match addLoop ⟨true, false, s.whaleCap, hasFirst⟩ s.memberLimit l (s.numMembers, [], 0) with
     | .error e => .error e
     | .ok (num, st, added) =>
       -- MEMBER_COUNT: `members.len()` after dedup (tiered) / `members_added` (tiered-flex)
       let cnt := if s.kind.isFlex then added else l.length
-      .ok (tipped { s with numMembers := num, stages := s.stages ++ [⟨start, stop, st, cnt⟩] } tip)
+      .ok (tipped { s with numMembers := num, stages := s.stages ++ [⟨st, cnt⟩] } tip)
 
-def execRemoveStage (s : WL) (sender now tip stage : Nat) : Except Err WL :=
-  if !isAdmin s sender then .error .unauthorized
+def execRemoveStage (s : WL) (allowed : Bool) (tip : Tip) (stage : Nat) : Except Err WL :=
+  if !allowed then .error .unauthorized
   else match s.stages[stage]? with
     | none => .error .notFound
-    | some g =>
-      if !(decide (now < g.start)) then .error .tooLate
-      else
-        let dropped := stageTotal (s.stages.drop stage)
-        -- `config.num_members -= 1` per stored member (checked arithmetic)
-        if s.numMembers < dropped then .error .other
-        else .ok (tipped { s with numMembers := s.numMembers - dropped, stages := s.stages.take stage } tip)
+    | some _ =>
+      let dropped := stageTotal (s.stages.drop stage)
+      -- `config.num_members -= 1` per stored member (checked arithmetic)
+      if s.numMembers < dropped then .error .other
+      else .ok (tipped { s with numMembers := s.numMembers - dropped, stages := s.stages.take stage } tip)
 
-def execIncreaseLimit (s : WL) (funds : List Coin) (limit : Nat) : Except Err WL :=
-  -- no admin check in the code: anybody may pay for more capacity
-  if decide (s.memberLimit ≥ limit) || decide (limit > s.kind.maxMembers) then .error .invalid
+def execIncreaseLimit (s : WL) (allowed : Bool) (funds : List Coin) (limit : Nat) : Except Err WL :=
+  if !allowed then .error .unauthorized
+  else if !deliverable funds then .error .payment
+  else if decide (s.memberLimit ≥ limit) || decide (limit > s.kind.maxMembers) then .error .invalid
   else
     let fee := upgradeFee s.kind s.memberLimit limit
     match mayPay funds NATIVE with
@@ -515,15 +508,14 @@ def execIncreaseLimit (s : WL) (funds : List Coin) (limit : Nat) : Except Err WL
 def exec (s : WL) (op : Op) : Except Err WL :=
   if s.kind == .immutable then .error .invalid     -- `enum ExecuteMsg {}`: nothing deserialises
   else match op with
-  | .addMembers sender _ tip stage ms => execAddMembers s sender tip stage ms
-  | .removeMembers sender now tip stage as => execRemoveMembers s sender now tip stage as
-  | .addStage sender now tip start stop ms =>
-    if s.kind.isTiered then execAddStage s sender now tip start stop ms else .error .invalid
-  | .removeStage sender now tip stage =>
-    if s.kind.isTiered then execRemoveStage s sender now tip stage else .error .invalid
-  | .increaseLimit _ _ funds limit => execIncreaseLimit s funds limit
-  | .env admins start stop times =>
-    .ok { s with admins := admins, start := start, stop := stop, stages := setTimes s.stages times }
+  | .addMembers al hf tip stage ms => execAddMembers s al hf tip stage ms
+  | .removeMembers al tip stage as => execRemoveMembers s al tip stage as
+  | .addStage al hf tip ms =>
+    if s.kind.isTiered then execAddStage s al hf tip ms else .error .invalid
+  | .removeStage al tip stage =>
+    if s.kind.isTiered then execRemoveStage s al tip stage else .error .invalid
+  | .increaseLimit al funds limit => execIncreaseLimit s al funds limit
+  | .other al tip => if al then .ok (tipped s tip) else .error .other
 
 /-- transactional step: a failed message leaves the state unchanged -/
 def step (s : WL) (op : Op) : WL := match exec s op with | .ok s' => s' | .error _ => s
@@ -538,26 +530,27 @@ def mapOf (s : WL) (stage : Nat) : List Member :=
 
 /-- `query_members(start_after, limit[, stage_id])`; `none` = `addr_validate(start_after)` failed -/
 def queryMembers (s : WL) (stage : Nat) (startAfter : Option Nat) (limit : Option Nat) : Option (List Member) :=
-  let lim := min (limit.getD PAGE_DEFAULT) PAGE_MAX
+  let lim := min (limit.getD s.kind.pageDefault) s.kind.pageMax
   match startAfter with
   | none => some ((mapOf s stage).take lim)
   | some a => if validAddr a then some (((mapOf s stage).filter (fun m => decide (a < m.1))).take lim) else none
 
-/-- `HasMember{member}` (`none` = query error); immutable: `IncludesAddress` (no validation) -/
-def queryHasMember (s : WL) (now : Nat) (a : Nat) : Option Bool :=
+/-- `HasMember{member}` (`none` = query error); immutable: `IncludesAddress` (no validation). `active` = the index
+`fetch_active_stage_index` returns at the time of the query (environment; ignored by the flat kinds). -/
+def queryHasMember (s : WL) (active : Option Nat) (a : Nat) : Option Bool :=
   if s.kind == .immutable then some (hasM a s.members)
   else if !validAddr a then none
   else if s.kind.isTiered then
-    match activeIdx now s.stages with
+    match active with
     | some i => some (hasM a (mapOf s i))
     | none => some false
   else some (hasM a s.members)
 
 /-- flex kinds: `Member{member}` → mint count (`none` = query error: invalid, not stored, no active stage) -/
-def queryMember (s : WL) (now : Nat) (a : Nat) : Option Nat :=
+def queryMember (s : WL) (active : Option Nat) (a : Nat) : Option Nat :=
   if !s.kind.isFlex || !validAddr a then none
   else if s.kind.isTiered then
-    match activeIdx now s.stages with
+    match active with
     | some i => getM a (mapOf s i)
     | none => none
   else getM a s.members
@@ -568,8 +561,16 @@ def queryStageMember (s : WL) (stage : Nat) (a : Nat) : Option Bool :=
   else if s.kind == .tiered && decide (stage ≥ s.stages.length) then none   -- `config.stages[stage_id]` panics
   else some (hasM a (mapOf s stage))
 
+/-- tiered kinds: `AllStageMemberInfo{member}` → `is_member` per stage, in stage order (`none` = query error) -/
+def queryAllStageMember (s : WL) (a : Nat) : Option (List Bool) :=
+  if !s.kind.isTiered || !validAddr a then none
+  else some ((List.range s.stages.length).map fun i => hasM a (mapOf s i))
+
 /-- tiered kinds: `Stage{stage_id}.member_count` -/
 def queryStageCount (s : WL) (stage : Nat) : Option Nat := (s.stages[stage]?).map (·.count)
+
+/-- tiered kinds: `Stages{}` → `member_count` of every stage (a separate expression in the Rust) -/
+def queryStagesCounts (s : WL) : List Nat := s.stages.map (·.count)
 
 /-- all pages of the `Members` query with page size `pg`, as a client walks them (`fuel` bounds the walk) -/
 def walkPages (s : WL) (stage : Nat) (pg : Nat) : Nat → Option Nat → List Member → List Member
